@@ -44,6 +44,9 @@ def run(ctx) -> None:
     ctx.rule("R5", "prerequisite: replacements never overlap - matches are enumerated completely and an overlapping later match is suppressed (C03/R3), spans applied right to left (C03/R1)")
     from sa.report import run_prerequisite
     run_prerequisite(ctx, "C03", ("R1", "R3"), "R5")
+    from checks.c02 import part_language_band_rule, V2_PART_REF, V2_PART_REF_MAX
+    part_language_band_rule(ctx, "R5", "v2patterns", V2_PART_REF, V2_PART_REF_MAX)          # text that is no version (non-ASCII digits, other shapes) is not a matched span
+    shapes.memo_rule(ctx, "R5")          # "files not named ... / only configured spans": the pattern cache hands every file its own patterns
 
     # ---------------------------------------------------------------- R1
     reach = effects.reachable_functions(["cli.update"])
